@@ -283,7 +283,7 @@ func (e *Evidence) write(path string) error {
 			"evaluations":         e.Runs,
 			"distinct_nontrivial": len(e.sigs),
 			"rule": "one evaluation = one simulated run (2-8 caller tasks executing seeded straight-line programs of rtcp operations over the real, " +
-				"source-instrumented package under a seeded scheduler; every result checked by oracles O1-O6). A run is non-trivial iff at least one task switch " +
+				"source-instrumented package under a seeded scheduler; every result checked by oracles O1-O6 and O9, every typed decode also made into a used receiver; O7 and O8 compare worker processes). A run is non-trivial iff at least one task switch " +
 				"happened at a yield point inside an rtcp operation while the task switched to was itself parked inside an rtcp operation AND at least one object " +
 				"(packet or buffer) was reachable by more than one task. Distinct = distinct schedule signature (FNV hash of all programs, object seeds and the " +
 				"recorded switch list). Measured by the workers per run; the coordinator counts set cardinality.",
@@ -325,7 +325,8 @@ func (e *Evidence) write(path string) error {
 			"simulated_time":                                             e.simulatedTime(),
 			"components_real":                                            []string{"every non-test source file of github.com/pion/rtcp from the working tree (yield call inserted before each statement)", "Go runtime", "fmt/reflect/encoding/binary", "Go race detector (race build)"},
 			"components_stub":                                            []string{"seeded scheduler (token hand-off invisible to the race detector)", "transport and mailboxes (drop/duplicate/delay/reorder/corrupt)", "caller roles: producers, receivers, consumers, private-history tasks"},
-			"components_absent":                                          []string{"clock/timers", "disk", "sockets (the library has none)"},
+			"components_absent":                                          []string{"clock/timers (a simulated clock exists for trees that read one)", "disk", "sockets (the library has none)"},
+			"channel_operations_made_cooperative":                        e.build.Desc.ChanCoop,
 			"go_version":                                                 e.build.GoVer,
 			"build_s":                                                    e.build.BuildS,
 			"op_only_scheduling":                                         e.build.Desc.OpOnly,
